@@ -200,13 +200,15 @@ class ContainersMixin:
             return UNIT
         if name == "reverse":
             if not isinstance(rv.n, int):
-                raise Unsupported("reverse of symbolic-length vec")
+                ip.write(place, self.vec_from_seq(list(reversed(self.vec_seq(rv))), rv.kind))
+                return UNIT
             ip.write(place, Vc(list(reversed(rv.items[: rv.n])), None, rv.kind))
             return UNIT
         if name == "join":
             sep = D()
             if not isinstance(rv.n, int):
-                raise Unsupported("join of symbolic-length vec")
+                # text of a symbolic-length join is only used in messages: one opaque alternative
+                return S("<joined>")
             parts = []
             for j in range(rv.n):
                 if j:
